@@ -14,6 +14,32 @@ impl ByteSpace {
     pub fn new(name: &str, len: u64, get: impl Fn(u64, &mut Vec<u8>) + Sync + Send + 'static) -> ByteSpace {
         ByteSpace { name: name.to_string(), len, get: Box::new(get) }
     }
+
+    /// Runs `case` on every string of the space under the name `name`. The string is handed over at a chosen address
+    /// residue modulo 8 (`engine::place`): a space of at most `cross_limit` strings is crossed with all eight
+    /// residues (8 x len cases), a larger one rotates the residue with the case index.
+    pub fn run(&self, ctx: &mut crate::engine::run::Ctx, name: &str, cross_limit: u64, case: impl Fn(&[u8], &mut crate::engine::run::Local) + Sync) {
+        use crate::engine::place;
+        let cross = self.len <= cross_limit;
+        let get = &self.get;
+        ctx.run_space(name, if cross { self.len * place::RESIDUES } else { self.len }, |idx, l| {
+            let (i, r) = place::split(idx, cross);
+            let mut buf = Vec::with_capacity(80);
+            get(i, &mut buf);
+            let s = place::place(&mut buf, r);
+            case(s, l);
+        });
+    }
+}
+
+/// The largest space that is crossed with all eight address residues (see `ByteSpace::run`).
+pub fn cross_limit(ctx: &crate::engine::run::Ctx) -> u64 {
+    ctx.tier.pick(300_000, 3_000_000)
+}
+
+pub fn placement_bound(ctx: &mut crate::engine::run::Ctx) {
+    let lim = cross_limit(ctx);
+    ctx.bound("address placement", format!("every input string is handed to the parsers at a chosen address residue modulo 8 (zero-copy views: the address is part of the input): spaces of at most {} strings are crossed with all 8 residues, larger ones (and the giants) rotate the residue with the case index", lim));
 }
 
 pub const HEADER_PTS: [u8; 13] = [0, 192, 199, 200, 201, 202, 203, 204, 205, 206, 207, 242, 255];
